@@ -1,4 +1,6 @@
 import AcraModel.KeystoreSec.Path
+import AcraModel.KeystoreSec.Der
+import Driver.C18
 /-! Driver ops for C07. -/
 namespace Driver.C07
 open AcraModel AcraModel.KeystoreSec
@@ -17,6 +19,14 @@ def handle (op : String) (args : List String) : Option String :=
       pure (match Path.rel a b with | some r => "ok " ++ hexOf r | none => "err")
   | "ospath", [root, p] => do let root ← ofHex root; let p ← ofHex p; pure (outHex (Path.osPath root p))
   | "ospath.pinned", [root, p] => do let root ← ofHex root; let p ← ofHex p; pure (outHex (Path.osPathPinned root p))
+  | "der.int", [n] => do let n ← Driver.C18.parseInt n; pure (hexOf (Der.derInt n))
+  | "der.time", [n] => do let n ← Driver.C18.parseInt n; pure (hexOf (Der.utcTime n))
+  | "der.ring", [r] => do let r ← Driver.C18.parseRing r; pure (hexOf (Der.derRing r))
+  | "der.keys", n :: rs => do
+      let n ← n.toNat?
+      if rs.length ≠ n then none
+      let rs ← rs.mapM Driver.C18.parseRing
+      pure (hexOf (Der.derEncryptedKeys rs))
   | _, _ => none
 
 end Driver.C07
